@@ -48,6 +48,12 @@ ENCODINGS = {
 def _wrap(kind, values, dtype=None):
     if kind == "list":
         return list(values)
+    if kind == "ndarray2d":
+        return np.asarray(values).reshape(-1, 1)
+    if kind == "dataframe":
+        return pd.DataFrame({"w": list(values)}, index=np.arange(len(values)) + 3)
+    if kind == "nested_list":
+        return [[v] for v in values]
     if kind == "ndarray":
         arr = np.asarray(values)
         if dtype and arr.dtype.kind in "iub" and all(isinstance(v, (int, bool, np.integer)) for v in values):
@@ -210,6 +216,8 @@ def check_mean_prediction(case):
         tags.append("weighted")
         if case.get("yp_type") in ("int", "bool") and any(float(x) != int(x) for x in w):
             tags.append("int_predictions_real_weights")
+        if case.get("wkind") in ("ndarray2d", "dataframe", "nested_list") and n >= 2:
+            tags.append("column_shaped_weights")
     if n == 1:
         tags.append("n1")
     return tags
@@ -261,7 +269,7 @@ def _mp_cases(draw):
         "yp": draw(st.lists(vals, min_size=n, max_size=n)),
         "w": draw(st.one_of(st.none(), st.lists(_weights, min_size=n, max_size=n))),
         "kind": draw(st.sampled_from(["list", "ndarray", "series"])),
-        "wkind": draw(st.sampled_from(["list", "ndarray", "series"])),
+        "wkind": draw(st.sampled_from(["list", "ndarray", "series", "ndarray2d", "dataframe", "nested_list"])),
         "yp_type": draw(st.sampled_from(["float", "float", "int", "bool"])),
     }
 
@@ -297,5 +305,5 @@ SUBS = [
         floors={"nt": 0.3, "single_valued": 0.05, "weighted": 0.2, "n1": 0.02}),
     Sub("rates_exhaustive", check, enumerate=_enumerate, shards=16, exhaustive=True),
     Sub("mean_prediction", check_mean_prediction, strategy=_mp_cases, quick=600, thorough=10000, shards=4,
-        floors={"nt": 0.2, "weighted": 0.2, "int_predictions_real_weights": 0.05}),
+        floors={"nt": 0.2, "weighted": 0.2, "int_predictions_real_weights": 0.05, "column_shaped_weights": 0.08}),
 ]
